@@ -31,6 +31,7 @@ from radical.pilot.agent.staging_input.default  import Default as AgentIn
 from radical.pilot.agent.staging_output.default import Default as AgentOut
 
 PID = 'pilot.0000'
+PID2 = 'pilot.0001'     # optional second pilot: client side real, agent a harness stub
 SID = 'rp.session.verif.pipe'
 PROXIES = [rpc.PROXY_CONTROL_PUBSUB, rpc.PROXY_STATE_PUBSUB]
 
@@ -50,8 +51,10 @@ class PipeSim(object):
 
     MAX_ROUNDS = 400
 
-    def __init__(self, layout, add_pilot=True):
+    def __init__(self, layout, add_pilot=True, two=False):
         self.problems = []
+        self.two = two
+        self.stub_ran = set()
         self._n_comp = len(rpu_component._components)
         base = boot.case_dir('pipe.')
         self.cdir = os.path.join(base, 'client')
@@ -79,6 +82,7 @@ class PipeSim(object):
         self.tmgr  = hollow_tmgr(self.client)
         self.pmgr  = HollowPmgr(self.client)
         self.pilot = real_pilot(self.pmgr, PID, sandbox=self.rdir, cores=64)
+        self.pilot2 = real_pilot(self.pmgr, PID2, sandbox=self.rdir, cores=64) if two else None
         pd = self.pilot.as_dict()
         self.client._reg['cfg.session_sandbox'] = str(self.client._get_session_sandbox(pd))
         self.psbox = ru.Url(pd['pilot_sandbox']).path
@@ -116,7 +120,8 @@ class PipeSim(object):
     def add_pilot(self):
         if not self.pilot_added:
             self.pilot_added = True
-            self.tmgr.add_pilots(self.pilot)     # real: control message to scheduler + stager
+            # real: control message to scheduler + stager
+            self.tmgr.add_pilots([self.pilot, self.pilot2] if self.two else self.pilot)
 
     # --------------------------------------------------------------------------
     def bad(self, sig, msg=''):
@@ -163,6 +168,8 @@ class PipeSim(object):
                  'cores_per_rank': s.get('cores_per_rank', 1)}
             if s.get('named'):
                 d['pilot'] = PID
+            elif s.get('named2') and self.two:
+                d['pilot'] = PID2
             ins, outs = [], []
             if s.get('stage_in'):
                 src = os.path.join(self.cdir, 'in.%d.dat' % i)
@@ -235,6 +242,8 @@ class PipeSim(object):
             elif name == 'hop_in':       # Agent_0._proxy_input_cb
                 ts = self._q(self.client, rpc.PROXY_TASK_QUEUE, PID)
                 self._put(self.agent, rpc.AGENT_STAGING_INPUT_QUEUE, ts)
+                if self.two:
+                    self._stub_agent(self._q(self.client, rpc.PROXY_TASK_QUEUE, PID2))
             elif name == 'ain':
                 self.ain.work_cb()
             elif name == 'asched':
@@ -255,6 +264,28 @@ class PipeSim(object):
         except Exception as e:       # noqa
             self.bad(exc_sig('component_raised:%s' % name, e), repr(e))
         return len(self.net.log) != before
+
+    def _stub_agent(self, tasks):
+        """the second pilot's agent (trusted stand-in): runs each task at once with its scripted
+        exit code, carries out no agent-side staging, and hands the task back to the client the
+        way agent output staging + Agent_0._proxy_output_cb do"""
+        out = []
+        for t in tasks or []:
+            uid  = t['uid']
+            code = self.spec[uid].get('exit', 0)
+            sbox = t['task_sandbox_path']
+            os.makedirs(sbox, exist_ok=True)
+            open('%s/%s.launch.out' % (sbox, uid), 'w').close()
+            t['stdout'], t['stderr'] = '', ''
+            t['exit_code']    = code
+            t['target_state'] = rps.FAILED if code else rps.DONE
+            if code:
+                t['exception']        = 'RuntimeError("task failed")'
+                t['exception_detail'] = 'exit code: %s' % code
+            t['state'] = rps.TMGR_STAGING_OUTPUT_PENDING
+            self.stub_ran.add(uid)
+            out.append(t)
+        self._put(self.client, rpc.PROXY_TASK_QUEUE, out, SID)
 
     def _run_executor(self):
         x = self.xsim
@@ -312,6 +343,8 @@ class PipeSim(object):
             f = s.get('fault')
             if f and f.startswith('exc:') and uid not in self.fired:
                 f = None       # the handler was never reached for this task (e.g. nothing to stage)
+            if f and uid in self.stub_ran and f not in ('tout_missing_source',) and uid not in self.fired:
+                f = None       # ran on the stub agent: no agent-side staging / launch faults there
             fin = self.final_seen.get(uid, [])
             st = task.state
             if st not in rps.FINAL:
@@ -364,7 +397,7 @@ class PipeSim(object):
 
 def run_pipeline(case):
     sim = PipeSim(case.get('layout') or {'nodes': 2, 'cores': 4, 'gpus': 0, 'lfs': 0, 'mem': 0},
-                  add_pilot=not case.get('late_add'))
+                  add_pilot=not case.get('late_add'), two=bool(case.get('two')))
     try:
         for op in case.get('ops', []):
             if op[0] == 'submit':
